@@ -363,6 +363,10 @@ class ThreadProg:
             with contextlib.suppress(BaseException):
                 self.block(st[1])
             self.probe_hit("foreign_suppress_block")
+        elif op == "drop":
+            # the user forgets a pre-built context object (its finaliser, if any, runs here or at the next gc)
+            if st[1] not in self.active and self.slots.pop(st[1], None) is not None:
+                self.stat("premade_dropped")
         elif op == "gc":
             import gc
 
@@ -537,7 +541,7 @@ def gen_block(rng, kn, depth, budget):
         elif r < kn["p_with"] + 0.29 + kn["p_raise"] and depth >= 1 and kn.get("poke"):
             out.append(["poke", gen_init(rng, "arith")])
         elif r < kn["p_with"] + 0.33 + kn["p_raise"] and kn.get("gc"):
-            out.append(["gc"])
+            out.append(["gc"] if rng.random() < 0.6 else ["drop", rng.randrange(kn["slots"])])
         elif r < kn["p_with"] + 0.36 + kn["p_raise"] and depth < kn["max_depth"]:
             catches = rng.sample(kn["excs"], rng.randint(1, len(kn["excs"])))
             out.append(["try", gen_block(rng, kn, depth, budget), catches])
@@ -964,7 +968,7 @@ def _nullify(block):
     """For calibration: contexts request nothing and the program does no arithmetic of its own (probes and
     flag-raising statements removed), so that any change of the register between two observations is
     noise of the interpreter / harness itself."""
-    block[:] = [st for st in block if st[0] not in ("probe", "flags", "poke", "gc")]
+    block[:] = [st for st in block if st[0] not in ("probe", "flags", "poke", "gc", "drop")]
     for st in block:
         if st[0] == "with":
             st[1].clear()
